@@ -1,10 +1,11 @@
 (** CoreOpsBridgeEx.v — NON-VACUITY of the bridge (CoreOpsBridge.v, CoreOpsBridgeHist.v).
 
-    * [exB]: a 30-call history written in the syntax of the EXTRACTED interpreter (handles, string
+    * [exB]: a 31-call history written in the syntax of the EXTRACTED interpreter (handles, string
       literals, pool strings): arrays (append, insert at 0, a refused self-insertion), objects with
       owned and constant keys, an Add…ToObject helper, both lookup variants, replace by key, the
-      setters, a returned string that is read, a call through a dead handle (= NULL), detach by
-      index and by key, delete by index and by key, deletion of the two documents.  It is accepted,
+      setters, a returned string that is read, a call through a dead handle (= NULL), the caller's
+      iteration, detach by
+      index and by key, delete by index and by key, deletion of the two documents.  It is accepted (by the rule checker alone: [accepted_rules]),
       the list model's results are [exB_results], and BOTH interpreters, run by [vm_compute] from the
       empty heap, return these results / end in the same heap (compared field by field).
     * every case line of corpus/C06 and every case line of corpus/C07 without allocation failure
